@@ -1260,7 +1260,8 @@ class Mesh:
                                           elements))
 
     def remove_unused_nodes(self):
-        p, t, _ = self._reix(self.t)
+        # all nodes of the elements, see Mesh.restrict
+        p, t, _ = self._reix(self.dofs.element_dofs)
         return replace(
             self,
             doflocs=p,
